@@ -70,13 +70,10 @@ def validate(ctx, cfg, tracefile, n, seed, leg, hists):
         kinds = {2 * (k + 1): kd for k, kd in enumerate(reset.get("kinds", []))}
         sig = signature(ctx.prop, cfg, ev, text, kinds)
         hist = hists[reset["h"]] if hists is not None else None
-        replay = None
         what = "line %d: %s ; spec allows %s" % (line, json.dumps({k: v for k, v in ev.items() if k not in ("seq",)}), text[:300])
-        if not any(v[0] == sig for v in ctx.violations):
-            replay = ctx.save_replay({"property": ctx.prop, "cfg": cfg, "n": n, "seed": seed, "history": hist,
-                                      "signature": sig, "leg": leg, "event": ev,
-                                      "prefix": [e for e in evs[i:line]][-30:]})
-        ctx.discrepancy(sig, what, replay)
+        replay = {"property": ctx.prop, "cfg": cfg, "n": n, "seed": seed, "history": hist,
+                  "signature": sig, "leg": leg, "event": ev, "prefix": [e for e in evs[i:line]][-30:]}
+        ctx.discrepancy(sig, what[:600], replay)
 
 
 def run_cfg(ctx, drv, cfg, histfile, hists, n, seed, observe, tag):
